@@ -114,7 +114,25 @@ def rule_r2(p, res):
         # two-statement form
         st = {a: (s_, v_) for a, s_, v_ in _attr_stores_on(f.node, cp)}
         if "_source" in st and "_target" in st:
-            ok = norm(st["_source"][1]) in ("self._target", "self.target") and norm(st["_target"][1]) in ("self._source", "self.source")
+            def _res(e):
+                """a local that was read off the copy / self before the stores (plain or tuple assignment)"""
+                if isinstance(e, ast.Name):
+                    for n_ in walk_own(f.node):
+                        if isinstance(n_, ast.Assign) and len(n_.targets) == 1:
+                            t_ = n_.targets[0]
+                            if isinstance(t_, ast.Name) and t_.id == e.id:
+                                return n_.value
+                            if isinstance(t_, ast.Tuple) and isinstance(n_.value, ast.Tuple) and len(t_.elts) == len(n_.value.elts):
+                                for a_, b_ in zip(t_.elts, n_.value.elts):
+                                    if isinstance(a_, ast.Name) and a_.id == e.id:
+                                        return b_
+                return e
+            src_v, tgt_v = str(norm(_res(st["_source"][1]))), str(norm(_res(st["_target"][1])))
+            ok = src_v in ("self._target", "self.target", cp + "._target", cp + ".target") and tgt_v in ("self._source", "self.source", cp + "._source", cp + ".source")
+            if ok and (src_v.startswith(cp + ".") or tgt_v.startswith(cp + ".")):
+                # read off the copy itself: both reads must precede both stores
+                reads = [n_.lineno for n_ in walk_own(f.node) if isinstance(n_, ast.Assign) and any(str(norm(x)) in (cp + "._target", cp + "._source") for x in ast.walk(n_.value))]
+                ok = bool(reads) and max(reads) < min(st["_source"][0].lineno, st["_target"][0].lineno)
             r.check(ok, f, st["_source"][0], "inverse alignment must take source<-target and target<-source")
         else:
             r.violation(f, f.node, "the inverse of a homogeneous alignment does not exchange source and target")
